@@ -143,7 +143,9 @@ def hostile_cases(args):
             if work.exists(): shutil.rmtree(work)
             shutil.copytree(root, work)
             before = sorted(str(p) for p in base.rglob("*") if not str(p).startswith(str(work)))
-            subp = sub.replace("$ABS", str(outside / "wsub"))
+            subp = (sub.replace("$ABS", str(outside / "wsub"))
+                       .replace("$REENTER3", f"../../../{work.parent.parent.name}/{work.parent.name}/{work.name}/sub")
+                       .replace("$REENTER2", f"../../{work.parent.name}/{work.name}/sub").replace("$REENTERX", f"x/../../../{work.parent.name}/{work.name}"))
             try:
                 with DatasetFiller(Dataset(work), relative_path_from_split=Path(subp)) as f:
                     f.write_example(values=sp.val(1), split="train")
@@ -189,7 +191,7 @@ def run(ctx):
                {"field": "child", "path": "$OUT"}, {"field": "child", "path": "$RELOUT"}, {"field": "self", "path": "$RELOUT"}, {"field": "self", "path": "$OUT"},
                {"field": "symlink", "path": "unrelated"}, {"field": "symlink", "path": "prefix-sibling"}]
     actions = ["open", "check", "sync", "concurrent", "write"] + (["rust", "tf", "async"] if ctx.thorough else ["rust"])
-    subdirs = ["..", "../x", "a/../../x", "$ABS", "a/./b"]
+    subdirs = ["..", "../x", "a/../../x", "$ABS", "a/./b", "$REENTER2", "$REENTER3", "$REENTERX"]
     args = [{"base": str(ctx.scratch / f"c17_{fmt}"), "fmt": fmt, "tampers": tampers, "actions": actions, "subdirs": subdirs} for fmt in (["fb"] if not ctx.thorough else ["fb", "npz", "tfrec"])]
     hres = child.call("harness.checks.c17", "hostile_cases", args, timeout=1800)
     nh = 0
